@@ -15,6 +15,8 @@ pub struct C12;
 #[derive(Debug, PartialEq, Eq)]
 pub enum Exp {
     Text(String, &'static str),
+    /// the documented rules can be read in more than one way, but every reading gives one of these texts
+    OneOf(Vec<String>, &'static str),
     Unspecified(&'static str),
 }
 
@@ -34,9 +36,12 @@ pub fn model(buf: &str, val: &str, vowel: bool, chandra: bool, tkar: bool, reph_
     if val == REPH && reph_on {
         return Exp::Unspecified("reph key with old-style reph on (judged by C13)");
     }
+    // a value of several code points that begins with a hasanta, typed after a hasanta: either it is simply appended, or
+    // the doubled-hasanta rule applies to its first code point (a non-joiner goes in between); nothing of it is lost
+    let after_hasanta = |buf: &str, val: &str| Exp::OneOf(vec![format!("{buf}{val}"), format!("{buf}{ZWNJ}{val}"), format!("{buf}{ZWNJ}{}", &val[HASANTA.len_utf8()..])], "hasanta-first-value-after-hasanta");
     if val == ZOFOLA {
         if last == Some(HASANTA) {
-            return Exp::Unspecified("multi-code-point value beginning with hasanta after hasanta");
+            return after_hasanta(buf, val);
         }
         if last == Some('র') && prev != Some(HASANTA) {
             return out(format!("{buf}{ZWJ}{val}"), "zofola-after-bare-ra");
@@ -45,7 +50,7 @@ pub fn model(buf: &str, val: &str, vowel: bool, chandra: bool, tkar: bool, reph_
     }
     if vlen > 1 {
         if v[0] == HASANTA && last == Some(HASANTA) {
-            return Exp::Unspecified("multi-code-point value beginning with hasanta after hasanta");
+            return after_hasanta(buf, val);
         }
         if is_kar(v[0]) || v[0] == '\u{09C4}' {
             return Exp::Unspecified("multi-code-point value beginning with a vowel sign");
@@ -166,6 +171,13 @@ fn run_steps(sess: &Sess, spec: &CfgSpec, alpha: &[Sym], steps: &[Step], out: &m
                 };
                 match model(&prev, &sy.val, vowel, chandra, tkar, reph) {
                     Exp::Unspecified(_) => t.unspecified += 1,
+                    Exp::OneOf(alts, rule) => {
+                        *t.rules.entry(rule).or_insert(0) += 1;
+                        if !alts.contains(&got) {
+                            let sig = format!("c12:{rule}:val={}:v{}c{}t{}", esc(&sy.val), vowel as u8, chandra as u8, tkar as u8);
+                            out.violation("rule-chain", sig, case_json(spec, alpha, &steps[..=n]), format!("one of {alts:?} (text before {prev:?}, key value {:?})", sy.val), format!("{got:?}"));
+                        }
+                    }
                     Exp::Text(exp, rule) => {
                         *t.rules.entry(rule).or_insert(0) += 1;
                         if rule != "append" {
@@ -236,7 +248,7 @@ impl Prop for C12 {
     }
     fn assumptions(&self) -> Vec<String> {
         vec![
-            "character classes (vowel, vowel sign, consonant) are taken from the Unicode chart; contexts involving ঌ ৠ ৡ ৄ(as last) ৢ ৣ, non-ASCII marks such as । for the 'after punctuation' test, Assamese consonants, and a multi-code-point value beginning with hasanta typed after hasanta are counted as unspecified and not judged".into(),
+            "character classes (vowel, vowel sign, consonant) are taken from the Unicode chart; contexts involving ঌ ৠ ৡ ৄ(as last) ৢ ৣ, non-ASCII marks such as । for the 'after punctuation' test, Assamese consonants, are counted as unspecified and not judged; a multi-code-point value beginning with hasanta typed after hasanta must give one of three texts (appended as it is; a non-joiner in between; a non-joiner replacing its own hasanta)".into(),
             "the reph key with old-style reph on is judged by C13, not here".into(),
             "old vowel-sign order off, suggestions off".into(),
         ]
